@@ -13,6 +13,8 @@ S2  : voter-level stage in a CERTIFICATE round (driver `votecert`: the real ucon
       weights 2,2,2, two indices, votes injected with the handler's label or -- skew -- labelled msgSame for another index):
       VoteCount.tla with CertRound on, checked exhaustively; one behaviour into every distinct design state (mode GV) driven
       through the real Voter; same monitor (plus CertOnlyAfterPrecommitQuorum), conformance with VoteCount_Trace2.cfg.
+S3  : voter-level stage in an ordinary round with five (thorough: six) round indices and one block staying the candidate: the
+      ring of four tallies (MaxVoteCacheCount) and the recycling of the oldest one, modelled in VoteCount.tla (Ring, Advance).
 U   : growth stage UconNet (checks/uconnet.py): spec/UconNet.tla checked at design level (thorough), and spec/UconNet_Mon.tla on
       the merged traces of the repository's six-node tests TestUcon (quick, thorough) and TestFork (thorough).
 T   : the driver `votecount` feeds every behaviour to the real ucon engine (real chain, real Server assembled without timers,
@@ -36,6 +38,8 @@ CONSTANTS
   Known = %(Known)s
   Replay = %(Replay)s
   Skew = %(Skew)s
+  KSet = %(KSet)s
+  Ring = 4
   MaxLost = %(MaxLost)d
   FutureJudged = %(FutureJudged)s
   Mode = "%(Mode)s"
@@ -52,7 +56,7 @@ FUTURE_CERT = '{"equivocator_future_vote"}'  # remains at design level: certific
 
 
 def cfg(mode, **kw):
-    d = dict(WSel="c", Blocks=AB, MaxI=1, MaxMsgs=4, Cert="FALSE", Creds=OK, Mode=mode, MaxOps=0, Known="{}", Replay=REPLAY, Skew='{"judged"}', MaxLost=1, FutureJudged="TRUE")
+    d = dict(WSel="c", Blocks=AB, MaxI=1, MaxMsgs=4, Cert="FALSE", Creds=OK, Mode=mode, MaxOps=0, Known="{}", Replay=REPLAY, Skew='{"judged"}', MaxLost=1, FutureJudged="TRUE", KSet='{"Prevote", "Precommit", "Cert"}')
     d.update(kw)
     if mode == "M":
         d["head"], d["tail"] = "SPECIFICATION Spec", INVS
@@ -248,32 +252,69 @@ def stage2(ctx):
             behs += hs
     ctx.cov["exhaustive"] = bool(ctx.cov.get("exhaustive")) and ok
     ctx.note("stage 2 (voter level, certificate round): %d witnesses, %d generated behaviours" % (nw, len(behs) - nw))
-    bpath = ctx.path("behaviours2.ndjson")
+    voter_level(ctx, "2", behs, "VoteCount_Trace2.cfg", ok,
+                ("PrecommitOnlyAfterPrevoteQuorum", "CertOnlyAfterPrecommitQuorum", "CommitOnlyAfterQuorums"))
+
+
+def stage3(ctx):
+    """Voter-level stage, ordinary round 1, FIVE or six round indices with one block staying the candidate: the voter keeps the
+    tallies of four contexts and recycles the oldest tally object for the fifth (votes_mgr.go NewWrapper / clear)."""
+    quick = ctx.quick
+    kw = dict(WSel="g", Cert="FALSE", Blocks='{"B"}', Skew='{"judged"}', FutureJudged="FALSE", Replay="{}")
+    runs = [("GV3_ring_5indices", dict(MaxI=5, MaxMsgs=2, KSet='{"Prevote"}'))]
+    if not quick:
+        runs.append(("GV3_ring_6indices", dict(MaxI=6, MaxMsgs=2, KSet='{"Prevote", "Precommit"}')))
+    behs = []
+    ok = True
+    rnd = random.Random(ctx.seed)
+    for name, k2 in runs:
+        d = dict(kw)
+        d.update(k2)
+        m = ctx.tlc_must("VoteCount", cfg("GV", **d), name=name, timeout=3000)
+        if m.violated:
+            ok = False
+            ctx.cov["design_violation_stage3"] = m.violated
+            behs += [v["h"] for v in m.printed if isinstance(v, dict) and v.get("kind") == "CEX"]
+        hs = leaves([v["h"] for v in m.printed if isinstance(v, dict) and v.get("kind") == "B"])
+        hs.sort(key=lambda h: json.dumps(h, sort_keys=True))
+        if len(hs) > 15000:
+            rnd.shuffle(hs)
+            hs = hs[:15000]
+        behs += hs
+    ctx.cov["exhaustive"] = bool(ctx.cov.get("exhaustive")) and ok
+    ctx.note("stage 3 (voter level, ring of four tallies over %s indices): %d generated behaviours" % ("5" if quick else "5-6", len(behs)))
+    voter_level(ctx, "3", behs, "VoteCount_Trace3.cfg", ok, ("PrecommitOnlyAfterPrevoteQuorum",))
+
+
+def voter_level(ctx, tag, behs, tracecfg, ok, must_fire):
+    """Drive behaviours through the real Voter (driver votecert), judge with VoteCount_Mon, conformance with `tracecfg`."""
+    bpath = ctx.path("behaviours%s.ndjson" % tag)
     vlib.write_ndjson(bpath, behs)
-    trace = ctx.path("trace2.ndjson")
+    trace = ctx.path("trace%s.ndjson" % tag)
     ctx.drive("votecert", trace, behaviours=bpath)
     ctx.cov["traces_validated_against_impl"] += len(behs)
     ctx.cov["evaluations"] += len(behs)
-    ctx.cov["stage2_behaviours"] = len(behs)
-    res, _ = vlib.monitor(ctx, "VoteCount_Mon", "VoteCount_Mon.cfg", trace, name="VoteCount_Mon_stage2", behaviours=bpath,
+    ctx.cov["stage%s_behaviours" % tag] = len(behs)
+    res, _ = vlib.monitor(ctx, "VoteCount_Mon", "VoteCount_Mon.cfg", trace, name="VoteCount_Mon_stage" + tag, behaviours=bpath,
                           replay_meta={"driver": "votecert"})
-    ctx.cov["stage2_clauses_fired"] = res.get("fired")
-    conf = ctx.tlc("VoteCount_Trace", "VoteCount_Trace2.cfg", name="Conf_stage2", files={"trace.ndjson": trace}, workers=1,
+    ctx.cov["stage%s_clauses_fired" % tag] = res.get("fired")
+    conf = ctx.tlc("VoteCount_Trace", tracecfg, name="Conf_stage" + tag, files={"trace.ndjson": trace}, workers=1,
                    timeout=1500, count=False, xss="256m")
     acc = [v for v in conf.printed if isinstance(v, dict) and v.get("kind") == "ACCEPTED"]
     rej = [v for v in conf.printed if isinstance(v, dict) and v.get("kind") == "REJECTED"]
+    key = "stage%s_conformance" % tag
     if acc:
-        ctx.cov["stage2_conformance"] = "accepted %d events" % acc[0]["events"]
+        ctx.cov[key] = "accepted %d events" % acc[0]["events"]
     else:
         ctx.cov["drift_events"] += 1
-        ctx.cov["stage2_conformance"] = "rejected: %s" % (json.dumps(rej[0])[:800] if rej else (conf.error or conf.violated or "no verdict"))
-        print("DRIFT: property=C03 the real Voter (certificate round) left the design layer of VoteCount.tla: %s" % ctx.cov["stage2_conformance"], flush=True)
+        ctx.cov[key] = "rejected: %s" % (json.dumps(rej[0])[:800] if rej else (conf.error or conf.violated or "no verdict"))
+        print("DRIFT: property=C03 the real Voter (voter-level stage %s) left the design layer of VoteCount.tla: %s" % (tag, ctx.cov[key]), flush=True)
     fired = res.get("fired") or {}
-    for c in ("PrecommitOnlyAfterPrevoteQuorum", "CertOnlyAfterPrecommitQuorum", "CommitOnlyAfterQuorums"):
+    for c in must_fire:
         if not fired.get(c):
-            raise vlib.Undecided("stage 2: clause %s never fired: generator bug" % c)
+            raise vlib.Undecided("stage %s: clause %s never fired: generator bug" % (tag, c))
     if not ok and not ctx.violations and not ctx.known_hits:
-        raise vlib.Undecided("stage 2: design-level counterexample did not reproduce on the real code: specification drift")
+        raise vlib.Undecided("stage %s: design-level counterexample did not reproduce on the real code: specification drift" % tag)
 
 
 def run(ctx):
@@ -301,6 +342,7 @@ def run(ctx):
     if not ok and not ctx.violations and not ctx.known_hits:
         raise vlib.Undecided("design-level counterexample did not reproduce on the real code: specification drift")
     stage2(ctx)
+    stage3(ctx)
     # growth stage UconNet (see checks/uconnet.py): the composition at design level, and the C02/C03 clauses plus Agreement
     # on the traces of the repository's own six-node tests (real concurrency), recorded by the verifTrace hooks in voter.go
     if ctx.quick:
